@@ -283,6 +283,12 @@ def main(ctx):
                     if (ai + len(shape)) % 3 != ("mixed", "to_zero", "never").index(losses) and ctx.quick:
                         continue
                     cells.append({"kind": "rl", "bound": 1, "cfg": {"shape": shape, "losses": losses, "l0": l0, "agent": agent, "samplers": samplers}})
+    # a new scheduler built on an agent / environment pair that has already driven a calibration (its reference best loss is set)
+    for samplers in ("with_halton", "halton_first", "without_halton", "three"):
+        for shape in ([2], [1, 2], [3]):
+            for used in (2.5, 0.0, 100.0):
+                for script in ([1, 0, 1], [0, 0], [1]):
+                    cells.append({"kind": "rl", "cfg": {"shape": shape, "losses": "mixed", "l0": 10.0, "agent": {"kind": "scripted", "script": script}, "samplers": samplers, "used_env": used}})
     # a failing batch under the RL scheduler, then further sessions: the retry and every later batch still follow the agent's choices
     for samplers in ("with_halton", "three"):
         for shape in ([2, 2], [3, 2]) if ctx.quick else ([2, 2], [3, 2], [1, 3], [2, 2, 2]):
